@@ -10,7 +10,7 @@
 (* C<nn>_<Name>(a, ev, b) over the monitor state before (a) and after (b)  *)
 (* the event ev; all oracles are the TLA+ operators of Pipeline.tla        *)
 (* evaluated by TLC on the program carried by the `prog` event.            *)
-(* A clause that fails prints  <<"VIOL", clause, run, line, detail>>  and  *)
+(* A clause that fails prints  "VIOL|clause|run|line|detail"  and         *)
 (* the monitor goes on, so that every violation in a trace is reported.    *)
 (***************************************************************************)
 EXTENDS Pipeline, Json, IOUtils
@@ -408,7 +408,9 @@ Consume ==
               ELSE IF a.hasprog THEN After(a, ev) ELSE a
          bad == IF ev.e = "prog" \/ ~a.hasprog THEN {}
                 ELSE {c \in Selected : ~Holds(c, a, ev, b)}
-     IN  /\ \A c \in bad : PrintT(<<"VIOL", c, a.run, ev.i, Detail(c, a, ev)>>)
+     \* (one string per violation: TLC wraps long tuples over several lines, strings never)
+     IN  /\ \A c \in bad : PrintT("VIOL|" \o c \o "|" \o ToString(a.run) \o "|" \o ToString(ev.i) \o "|"
+                                    \o ToString(Detail(c, a, ev)))
          /\ m' = [b EXCEPT !.nviol = @ + Cardinality(bad)]
   /\ l' = l + 1
 
